@@ -1021,7 +1021,7 @@ def main(tier, seed=0, replay=None, only=None, procs=None):
     if h is None:
         return rc
     res = CH.finish(h, 'harness_ch.c11_keys', only=[s_.replace('key.', '') for s_ in only] if only else None)
-    evp = os.path.join(root, 'evidence', f'{PID}.json')
+    evp = os.path.join(root, 'evidence', f"{PID}{os.environ.get('VERIF_EVIDENCE_SUFFIX', '') or ('.partial' if only else '')}.json")
     ev = json.load(open(evp))
     cov = ev['coverage']
     n_l, n_ok = len(res['laws']), sum(1 for v in res['laws'].values() if v.startswith('confirmed'))
